@@ -512,6 +512,8 @@ def wrapper_discipline(C, R, cfg, state_adts, rule):
             continue
         if fn.get('in_trait') and is_private_helper(F, CG, fn):
             continue
+        if is_private_helper(F, CG, fn) and CG.callers_of(fn['path']) and fn['path'] not in state_fn_adt:
+            continue     # judged in its callers, with the arguments they pass (see below)
         for path in E.run(fn['path']):
             if path.exit != 'return':
                 continue
@@ -546,6 +548,10 @@ def wrapper_discipline(C, R, cfg, state_adts, rule):
         if fn.get('in_trait') and is_private_helper(F, CG, fn):
             continue     # a provided method of a private trait: generic over Self, judged in the impls' callers
         if not any(fn['path'].lstrip('<').startswith(m_) for m_ in mods):
+            continue
+        if is_private_helper(F, CG, fn) and CG.callers_of(fn['path']):
+            # a private helper shared by several operations (`remove_endpoint(counter, discard)`): which transitions one
+            # operation performs depends on the arguments each caller passes; the callers are judged with it inlined
             continue
         for path in E.run(fn['path']):
             if path.exit != 'return':
